@@ -95,8 +95,9 @@ kw = ["Accepted publickey", "Accepted password", "Certificate invalid", "Invalid
 def c11runs(NQ, NT, TQ, TT):
     runs = [run("arbitrary", SSHD, "VerifC11Arbitrary", q({"N": NQ}, ascii7=False), t({"N": NT}), reach=["c11.nothing"],
                 bounds="line: any bytes, 0..N; pid token: any bytes, 0..3")]
+    need = {4: 48, 9: 60}  # shortest tails that can still form a recognised message
     for i, k in enumerate(kw):
-        runs.append(run("kw%02d" % i, SSHD, "VerifC11Keyword", q({"K": i, "T": TQ}, ascii7=False), t({"K": i, "T": TT}), reach=["c11.nothing"],
+        runs.append(run("kw%02d" % i, SSHD, "VerifC11Keyword", q({"K": i, "T": max(TQ, need.get(i, 0))}, ascii7=False), t({"K": i, "T": max(TT, need.get(i, 0) + 8)}), reach=(["c11.event"] if i == 2 else ["c11.event", "c11.nothing"]),
                         bounds="keyword %r + any bytes 0..T; pid token any bytes 0..3" % k))
     return runs
 c11_assume = ["no write fault is injected here (C05 covers it)", "stubs: zap, prometheus, json.Marshal, uuid, time.Now",
@@ -144,3 +145,22 @@ write("C20", [run("sort", DIRR, "VerifC20Sort", {"params": {"N": 3, "D": 2}}, {"
       ["each file-system event is processed before the next change (the property's proviso)", "in-memory file system written in the harness; sort.Slice modelled as insertion sort calling the real less closure",
        "a truncation is visible as a size decrease (the statement's 'truncation'); stubs: sync/atomic"],
       ["lines longer than bufio's 4096-byte buffer", "real inotify coalescing", "the watcher loop (loopWithError) around read()"], site_prefix="c20.")
+
+# ---- C12
+NP = M + "/ingesters/namedpipe"
+write("C12", [run("framing", NP, "VerifC12Framing", {"params": {"T": 4}, "preempt": 0}, {"params": {"T": 5}, "preempt": 1}, reach=["c12.returned", "c12.record", "c12.callback-error"],
+                  bounds="stream of exactly T arbitrary bytes (delimiter positions symbolic), every partition into write calls, callback error at every record index or never; writer closes at the end")],
+      ["FIFO model: a Read returns the bytes of one pending write call (or its prefix), blocks on an empty open pipe, returns io.EOF after the writer closed; Close wakes a blocked Read with an error",
+       "the callback argument may carry its single trailing delimiter (C07 decides that); bufio executed from its real source"],
+      ["records longer than bufio's 4096-byte buffer (the ErrBufferFull accumulation path)", "pauses between writes (the model has order, not time)", "the kernel FIFO itself"], site_prefix="c12.")
+
+
+# ---- C19 again: the message forms plus the arbitrary lines of C11 (sites c19.*)
+c19runs = [run(n, SSHD, fn, q(qp), t(tp), reach=["c06." + n + ".event"],
+               bounds="field maxima " + json.dumps(qp) + " (quick) / " + json.dumps(tp) + " (thorough)") for (n, fn, qp, tp) in forms]
+c19runs += c11runs(24, 48, 28, 56)
+write("C19", c19runs,
+      ["counters are read from a private registry before/after each line (engine: observation log of CounterVec.WithLabelValues(...).Inc())",
+       "lines that start with a recognised keyword but emit nothing may still count (the statement allows it)",
+       "field alphabets and stubs as for C06 / C11"],
+      ["fields longer than the stated maxima"], site_prefix="c19.")
